@@ -1,8 +1,277 @@
 import BiotiteModel.Proofs.C10
 import BiotiteModel.Gen.C10
+/-!
+# C10 — property theorems (k-mer index tables and selectors)
+
+Helper lemmas are in `Proofs/C10.lean`.  All theorems quantify over *all* inputs (no size
+bound) unless the name ends in `_defect` (a concrete witness of a deviation of the real code,
+replayed on the implementation as a known finding).
+-/
 namespace BiotiteModel.C10
 
-/-- **Defect.** `fuse` accepts a symbol code equal to the alphabet length. -/
+/-! ## the two-pass construction -/
+
+/-- The second pass never writes beyond the capacity counted by the first pass and never
+dereferences `NULL`: for every hash `h` into `nb` slots and every item list the construction
+terminates without the model's undefined-behaviour outcome. -/
+theorem C10_fill_in_capacity (h : Nat → Nat) (nb : Nat) (items : List Entry)
+    (hb : ∀ e ∈ items, h e.kmer < nb) : ∃ s, build h nb items = .ok s ∧
+      ∀ (b : Nat) (bk : Bucket), s[b]? = some (some bk) → bk.ents.length = bk.cap := by
+  refine ⟨canon h nb items, build_eq_canon h nb items hb, ?_⟩
+  intro b bk hget
+  simp only [canon, List.getElem?_map] at hget
+  cases hr : (List.range nb)[b]? with
+  | none => simp [hr] at hget
+  | some b' =>
+    simp only [hr, Option.map_some, Option.some.injEq] at hget
+    split at hget
+    · simp at hget
+    · simp only [Option.some.injEq] at hget; subst hget; rfl
+
+/-- … and the result is exactly the specification: slot `b` = the items hashing to `b`, in order. -/
+theorem C10_build_exact (h : Nat → Nat) (nb : Nat) (items : List Entry)
+    (hb : ∀ e ∈ items, h e.kmer < nb) : build h nb items = .ok (canon h nb items) :=
+  build_eq_canon h nb items hb
+
+/-- `from_kmers` / `from_kmer_selection` / `from_sequences` all reduce to `mkTable`: for a direct
+table (`nBuckets = none`) and for **any** bucket number `≥ 1` the table is the canonical one. -/
+theorem C10_mkTable_exact (a : KAlph) (nBuckets : Option Nat) (items : List Entry)
+    (hsize : 0 < a.size) (hnb : ∀ n, nBuckets = some n → 0 < n) (hq : ∀ e ∈ items, e.kmer < a.size) :
+    mkTable a nBuckets items = .ok (canonTable a nBuckets.isSome (slotCount a nBuckets) items) :=
+  mkTable_eq a nBuckets items hsize hnb hq
+
+/-- `from_kmer_selection`: valid input (codes in range, equally long arrays) is never rejected and
+stores exactly the given `(kmer, ref, position)` triples. -/
+theorem C10_fromSelection_exact (a : KAlph) (nBuckets : Option Nat) (refs : List (Nat × List Nat × List Nat))
+    (hsize : 0 < a.size) (hnb : ∀ n, nBuckets = some n → 0 < n)
+    (hq : ∀ r ∈ refs, ∀ q ∈ r.2.2, q < a.size) (hl : ∀ r ∈ refs, r.2.1.length = r.2.2.length) :
+    fromSelection a nBuckets refs = .ok (canonTable a nBuckets.isSome (slotCount a nBuckets)
+      (refs.flatMap fun (r, ps, ks) => selItems r ps ks)) := by
+  unfold fromSelection
+  have h1 : (refs.all fun r => checkBounds a r.2.2) = true := by
+    simp only [List.all_eq_true, checkBounds, decide_eq_true_eq]
+    exact hq
+  have h2 : (refs.any fun r => decide (r.2.1.length ≠ r.2.2.length)) = false := by
+    simp only [List.any_eq_false, decide_eq_true_eq]
+    intro r hr; simp [hl r hr]
+  simp only [h1, h2, Bool.not_true, Bool.false_eq_true, if_false]
+  apply mkTable_eq a nBuckets _ hsize hnb
+  intro e he
+  simp only [List.mem_flatMap] at he
+  obtain ⟨⟨r, ps, ks⟩, hr, he⟩ := he
+  simp only [selItems, List.mem_map] at he
+  obtain ⟨⟨p, km⟩, hz, rfl⟩ := he
+  exact hq _ hr km (List.of_mem_zip hz).2
+
+/-! ## queries -/
+
+/-- **Match exactness**, direct and bucketed tables, any number of buckets `≥ 1`: the result of
+`match` is exactly the set of triples (query position `i`, reference id `r`, reference position
+`j`) such that the unmasked query k-mer at `i` equals a stored k-mer of `r` at `j`. -/
+theorem C10_match_exact (a : KAlph) (bucketed : Bool) (nb : Nat) (items : List Entry)
+    (qk : List Nat) (qm : List Bool)
+    (hbk : bucketed = true → 0 < nb) (hd : bucketed = false → ∀ q ∈ qk, q < nb) (i r j : Nat) :
+    (i, r, j) ∈ matchKmers (canonTable a bucketed nb items) qk qm ↔
+      ∃ q, qk[i]? = some q ∧ qm[i]? = some true ∧ (⟨q, r, j⟩ : Entry) ∈ items :=
+  matchKmers_canon a bucketed nb items qk qm hbk hd i r j
+
+/-- The scan for one k-mer returns exactly the stored entries with that k-mer, with multiplicity
+and in insertion order — for the direct table and for every bucket number. -/
+theorem C10_lookup (a : KAlph) (bucketed : Bool) (nb : Nat) (items : List Entry) (q : Nat)
+    (hbk : bucketed = true → 0 < nb) (hd : bucketed = false → q < nb) :
+    lookup (canonTable a bucketed nb items) q = items.filter (fun e => e.kmer == q) :=
+  lookup_canon a bucketed nb items q hbk hd
+
+/-- `count(kmers)` agrees with the match set: the number of stored entries per k-mer. -/
+theorem C10_count (a : KAlph) (bucketed : Bool) (nb : Nat) (items : List Entry) (kmers : List Nat)
+    (hbk : bucketed = true → 0 < nb) (hd : bucketed = false → ∀ q ∈ kmers, q < nb)
+    (hq : ∀ q ∈ kmers, q < a.size) :
+    countKmers (canonTable a bucketed nb items) kmers
+      = .ok (kmers.map fun q => (items.filter (fun e => e.kmer == q)).length) := by
+  unfold countKmers
+  have h1 : checkBounds (canonTable a bucketed nb items).alph kmers = true := by
+    simp only [checkBounds, canonTable, List.all_eq_true]
+    intro x hx; exact decide_eq_true (hq x hx)
+  simp only [h1, Bool.not_true, Bool.false_eq_true, if_false]
+  congr 1
+  apply List.map_congr_left
+  intro q hqm
+  rw [lookup_canon a bucketed nb items q hbk (fun hb => hd hb q hqm)]
+
+/-- `match_kmer_selection` returns exactly `(position, ref, ref position)` for equal k-mers. -/
+theorem C10_match_selection (a : KAlph) (bucketed : Bool) (nb : Nat) (items : List Entry)
+    (ps ks : List Nat) (hbk : bucketed = true → 0 < nb) (hd : bucketed = false → ∀ q ∈ ks, q < nb)
+    (hq : ∀ q ∈ ks, q < a.size) (hl : ps.length = ks.length) :
+    matchSelection (canonTable a bucketed nb items) ps ks
+      = .ok ((ps.zip ks).flatMap fun (p, q) =>
+          (items.filter (fun e => e.kmer == q)).map (fun e => (p, e.ref, e.pos))) := by
+  unfold matchSelection
+  have h1 : checkBounds (canonTable a bucketed nb items).alph ks = true := by
+    simp only [checkBounds, canonTable, List.all_eq_true]
+    intro x hx; exact decide_eq_true (hq x hx)
+  simp only [h1, Bool.not_true, Bool.false_eq_true, if_false, hl, ne_eq, not_true_eq_false]
+  congr 1
+  apply flatMap_congr'
+  intro ⟨p, q⟩ hz
+  simp only []
+  rw [lookup_canon a bucketed nb items q hbk (fun hb => hd hb q (List.of_mem_zip hz).2)]
+
+/-- `table[kmer]` for the direct table, and for the bucketed table **as long as all k-mer codes are
+below 2³²** (partial: the bucketed `__getitem__` compares only the low 32-bit word). -/
+theorem C10_getitem_partial (a : KAlph) (bucketed : Bool) (nb : Nat) (items : List Entry) (q : Nat)
+    (hbk : bucketed = true → 0 < nb) (hd : bucketed = false → q < nb) (hq : q < a.size)
+    (h32 : bucketed = true → q < 2 ^ 32 ∧ ∀ e ∈ items, e.kmer < 2 ^ 32) :
+    getItem (canonTable a bucketed nb items) q
+      = .ok ((items.filter (fun e => e.kmer == q)).map fun e => (e.ref, e.pos)) := by
+  unfold getItem
+  have hge : ¬ q ≥ (canonTable a bucketed nb items).alph.size := by simp [canonTable]; omega
+  simp only [hge, if_false]
+  cases bucketed with
+  | false =>
+    simp only [canonTable, Bool.false_eq_true, if_false]
+    rw [slotEntries_canon _ _ _ _ (hd rfl)]
+    simp [filt, hashOf]
+  | true =>
+    obtain ⟨hq32, he32⟩ := h32 rfl
+    simp only [canonTable, if_true]
+    rw [slotEntries_canon _ _ _ _ (Nat.mod_lt _ (hbk rfl))]
+    simp only [filt, hashOf, if_true, List.filter_filter]
+    congr 2
+    apply List.filter_congr
+    intro e he
+    have := he32 e he
+    rw [Nat.mod_eq_of_lt this]
+    by_cases hk : e.kmer = q
+    · simp [hk]
+    · simp [hk]
+
+/-- **Defect** (negation of the full statement for the bucketed table): with a k-mer code `≥ 2³²`
+stored, `table[kmer]` is empty for that k-mer and `table[kmer mod 2³²]` returns foreign positions,
+although `count` finds one entry each. -/
+theorem C10_getitem_defect :
+    let t := canonTable ⟨4, 17, none⟩ true 2 [⟨2 ^ 32 + 5, 0, 0⟩, ⟨5, 0, 1⟩, ⟨7, 0, 2⟩]
+    getItem t (2 ^ 32 + 5) = .ok [] ∧ getItem t 5 = .ok [(0, 0), (0, 1)] ∧
+    countKmers t [2 ^ 32 + 5, 5] = .ok [1, 1] := by
+  decide
+
+/-- **Merge = union** (`from_tables`): merging canonical tables gives the canonical table of the
+concatenated item lists, without ever exceeding the counted capacity. -/
+theorem C10_merge (h : Nat → Nat) (nb : Nat) (iss : List (List Entry)) :
+    mergeSlots nb (iss.map (canon h nb)) = .ok (canon h nb iss.flatten) :=
+  mergeSlots_canon h nb iss
+
+/-! ## masks -/
+
+/-- For spaced k-mers the k-mer mask computed by the code does not depend on the k-mer position:
+it is constant (**as written**: `mask[j + offset]`). -/
+theorem C10_mask_spaced_constant (a : KAlph) (sp : List Nat) (mask l : List Bool)
+    (hs : a.spacing = some sp) (h : toKmerMask a mask = .ok l) : ∃ b, l = List.replicate l.length b := by
+  unfold toKmerMask at h
+  simp only [hs] at h
+  split at h
+  · cases h; exact ⟨true, rfl⟩
+  · split at h
+    · cases h
+    · cases h; exact ⟨_, by rw [List.length_replicate]⟩
+
+/-- **Defect** (spacing `1101`, sequence length 10): masking position 6 excludes no k-mer (the
+k-mers starting at 3, 5 and 6 contain it); masking position 0 excludes all seven k-mers. -/
+theorem C10_mask_spaced_defect :
+    toKmerMask ⟨4, 3, some [0, 1, 3]⟩ [false, false, false, false, false, false, true, false, false, false]
+      = .ok (List.replicate 7 true) ∧
+    toKmerMask ⟨4, 3, some [0, 1, 3]⟩ [true, false, false, false, false, false, false, false, false, false]
+      = .ok (List.replicate 7 false) := by
+  decide
+
+/-- Contiguous k-mers: the k-mer at `i` is retained iff none of the positions `i … i+k-1` is masked. -/
+theorem C10_mask_contiguous (a : KAlph) (mask : List Bool) (hs : a.spacing = none) :
+    toKmerMask a mask = .ok ((List.range (a.arrayLength mask.length).toNat).map fun i =>
+      ! ((mask.drop i).take a.k).any id) := by
+  simp [toKmerMask, hs]
+
+/-! ## selectors -/
+
+/-- **Defect**: a sort key equal to `INT64_MAX` at a chunk start makes the forward pass keep the
+arg-min of the previous chunk; the reported minimizer 0 lies outside the window `[1, 2]`, whose
+leftmost minimum is position 1 (expected positions `[0, 1, 3]`). -/
+theorem C10_minimizer_defect :
+    minimizerSelect 2 (.table [5, int64Max, 3, 0]) [0, 1, 1, 2] = .ok [(0, 0), (3, 2)] ∧
+    leftmostArgmin [5, int64Max, int64Max, 3] 1 2 = some 1 := by
+  decide
+
+/-- Syncmer filter: index `i` is selected iff the relative position of its minimum s-mer is one of
+the (normalised) offsets. -/
+theorem C10_syncmer_filter (offs : List Nat) (rel : List Int) (i : Nat) :
+    i ∈ filterSyncmer offs rel ↔ ∃ r, rel[i]? = some r ∧ ∃ o ∈ offs, (o : Int) = r := by
+  unfold filterSyncmer
+  simp only [List.mem_filterMap]
+  constructor
+  · rintro ⟨⟨i', r⟩, hm, hsel⟩
+    rw [mem_zipIdx] at hm
+    split at hsel
+    · rename_i hany
+      simp only [Option.some.injEq] at hsel; subst hsel
+      simp only [List.any_eq_true, beq_iff_eq] at hany
+      exact ⟨r, hm, hany⟩
+    · simp at hsel
+  · rintro ⟨r, hr, o, ho, heq⟩
+    refine ⟨(i, r), (mem_zipIdx _ _ _).2 hr, ?_⟩
+    have : (offs.any fun o => (o : Int) == r) = true := by
+      simp only [List.any_eq_true, beq_iff_eq]; exact ⟨o, ho, heq⟩
+    simp [this]
+
+/-- Min-code selection: position `i` is selected iff its permuted code `v` satisfies
+`v < offset + range / compression` (stated without division). -/
+theorem C10_mincode (a : KAlph) (c : Nat) (hc : 1 ≤ c) (kmers : List Nat) (i q : Nat) :
+    (∃ l, mincodeSelect a c .ident kmers = .ok l ∧ ((i, q) ∈ l ↔ kmers[i]? = some q ∧ (q : Int) * c < a.size)) := by
+  unfold mincodeSelect
+  have : ¬ c < 1 := by omega
+  simp only [this, if_false, Perm.apply]
+  refine ⟨_, rfl, ?_⟩
+  simp only [List.mem_filterMap]
+  constructor
+  · rintro ⟨⟨⟨i', q'⟩, v⟩, hm, hsel⟩
+    rw [mem_zipIdx_zip] at hm
+    obtain ⟨hk, hv⟩ := hm
+    simp only [List.getElem?_map, hk, Option.map_some, Option.some.injEq] at hv
+    split at hsel
+    · rename_i hlt
+      simp only [Option.some.injEq, Prod.mk.injEq] at hsel
+      obtain ⟨rfl, rfl⟩ := hsel
+      subst hv
+      exact ⟨hk, by simpa using hlt⟩
+    · simp at hsel
+  · rintro ⟨hk, hlt⟩
+    refine ⟨((i, q), (q : Int)), (mem_zipIdx_zip _ _ _ _ _).2 ⟨hk, by simp [hk]⟩, ?_⟩
+    first | simpa using hlt | (simp; exact hlt)
+
+/-- **Defect**: `fuse` accepts a symbol code equal to the alphabet length (`>` instead of `>=`). -/
 theorem C10_fuse_defect : fuseChecked ⟨4, 2, none⟩ [4, 0] = .ok 16 := by decide
+
+/-! ## regenerated constants -/
+
+/-- The constants the model hard-codes are the ones in the source (`EntrySize`, the header of two
+32-bit words, the LCG, `MAX_INT_64`, lower bounds of `k` and `window`). -/
+theorem C10_gen_constants :
+    Gen.C10.entrySizeNoBuckets = 2 ∧ Gen.C10.entrySizeBuckets = 4 ∧ Gen.C10.headerWords = 2 ∧
+    Gen.C10.allocHeaderWords = Gen.C10.headerWords ∧
+    Gen.C10.lcgA = 0xd1342543de82ef95 ∧ Gen.C10.lcgC = 1 ∧ Gen.C10.maxInt64 = int64Max ∧
+    Gen.C10.kMin = 2 ∧ Gen.C10.windowMin = 2 ∧ Gen.C10.lcgA % 2 = 1 := by
+  decide
+
+/-! ## non-vacuity -/
+
+example : build (· % 3) 3 [⟨4, 0, 0⟩, ⟨7, 0, 1⟩, ⟨5, 1, 0⟩]
+    = .ok [none, some ⟨2, [⟨4, 0, 0⟩, ⟨7, 0, 1⟩]⟩, some ⟨1, [⟨5, 1, 0⟩]⟩] := by decide
+example : (matchKmers (canonTable ⟨2, 2, none⟩ true 3 [⟨1, 0, 0⟩, ⟨2, 0, 1⟩, ⟨1, 7, 4⟩]) [1, 3, 2] [true, true, false])
+    = [(0, 0, 0), (0, 7, 4)] := by decide
+example : mergeSlots 2 [canon (· % 2) 2 [⟨1, 0, 0⟩], canon (· % 2) 2 [⟨3, 1, 0⟩, ⟨2, 1, 1⟩]]
+    = .ok (canon (· % 2) 2 [⟨1, 0, 0⟩, ⟨3, 1, 0⟩, ⟨2, 1, 1⟩]) := by decide
+example : toKmerMask ⟨4, 2, none⟩ [false, true, false, false] = .ok [false, false, true] := by decide
+example : minimizerSelect 3 .ident [3, 2, 1, 0, 1, 2, 3, 0] = .ok [(2, 1), (3, 0), (4, 1), (7, 0)] := by decide
+example : filterSyncmer [0, 2] [0, 1, 2, 0] = [0, 2, 3] := by decide
+example : mincodeSelect ⟨2, 2, none⟩ 2 .ident [0, 1, 2, 3] = .ok [(0, 0), (1, 1)] := by decide
+example : pickleRoundTrip (canonTable ⟨2, 2, none⟩ true 2 [⟨1, 0, 0⟩, ⟨2, 0, 1⟩, ⟨3, 5, 4⟩])
+    = canonTable ⟨2, 2, none⟩ true 2 [⟨1, 0, 0⟩, ⟨2, 0, 1⟩, ⟨3, 5, 4⟩] := by decide
 
 end BiotiteModel.C10
